@@ -738,3 +738,111 @@ Proof.
     apply orb_true_iff in Hl as [Hl|Hl]; [lia|].
     apply andb_true_iff in Hl as [Hl _]. apply andb_true_iff in Hl as [Hl _]. lia.
 Qed.
+
+(* ------------------------------------------------------------------------------------------ *)
+(* payloads of the other records the specification lays out                                      *)
+(* ------------------------------------------------------------------------------------------ *)
+Theorem known_payloads_spec :
+  gen_known_payload "lookup" = Some spec_lookup_record
+  /\ gen_known_payload "waveform" = Some spec_waveform_descriptor
+  /\ gen_known_payload "geokeys_header" = Some spec_geokeys_header
+  /\ gen_known_payload "geokey" = Some spec_geokey_entry
+  /\ layout_width spec_lookup_record = 16 /\ spec_lookup_table_records * layout_width spec_lookup_record = spec_lookup_table_size
+  /\ layout_width spec_waveform_descriptor = 26 /\ layout_width spec_geokeys_header = 8 /\ layout_width spec_geokey_entry = 8.
+Proof. vm_compute. repeat split; reflexivity. Qed.
+
+Lemma gen_known_is_spec name L : gen_known_payload name = Some L -> spec_known_payload name = Some L.
+Proof.
+  destruct known_payloads_spec as (H1 & H2 & H3 & H4 & _).
+  unfold gen_known_payload, spec_known_payload.
+  destruct (String.eqb name "lookup"); [now rewrite <- H1|].
+  destruct (String.eqb name "waveform"); [now rewrite <- H2|].
+  destruct (String.eqb name "geokeys_header"); [now rewrite <- H3|].
+  destruct (String.eqb name "geokey"); [now rewrite <- H4|discriminate].
+Qed.
+
+(* what laspy's structure writes, the specification's decoder reads (and the encoders agree) *)
+Theorem known_payload_round_trip name L vals bs : gen_known_payload name = Some L ->
+  wf_fields L vals = true -> enc_fields L vals = Ok bs ->
+  spec_dec_known name bs = Ok (combine (spec_known_names name) vals, []) /\ spec_enc_known name vals = Ok bs.
+Proof.
+  intros HL Hwf He. apply gen_known_is_spec in HL.
+  destruct (dec_enc_fields _ vals bs [] Hwf He) as [Hd Hl]. rewrite app_nil_r in Hd.
+  unfold spec_dec_known, spec_enc_known, spec_known_names. rewrite HL.
+  rewrite Hl, Z.eqb_refl. now rewrite Hd.
+Qed.
+
+(* the classification lookup table: a table whose class numbers are distinct bytes and whose descriptions are at most 15
+   non-NUL bytes -- blank ones included -- is read back, record for record, from the bytes it is written as *)
+Fixpoint lookup_wf (seen : list Z) (t : lookup_table) : bool :=
+  match t with
+  | [] => true
+  | (c, d) :: r => negb (existsb (Z.eqb c) seen) && byte_ok c && Nat.leb (length d) 15 && no_nul d && lookup_wf (c :: seen) r
+  end.
+
+Lemma dict_set_fresh t : forall k v, existsb (Z.eqb k) (map fst t) = false -> dict_set t k v = t ++ [(k, v)].
+Proof.
+  induction t as [|[k' v'] t IH]; intros k v H; [reflexivity|].
+  cbn [map fst existsb] in H. apply orb_false_iff in H as [Hk Ht].
+  cbn [dict_set]. rewrite Z.eqb_sym, Hk. cbn [app]. now rewrite IH.
+Qed.
+
+Lemma skipn_exact {A} (l r : list A) n : length l = n -> skipn n (l ++ r) = r.
+Proof. intros <-. rewrite skipn_app, skipn_all, Nat.sub_diag. reflexivity. Qed.
+Lemma firstn_exact {A} (l r : list A) n : length l = n -> firstn n (l ++ r) = l.
+Proof. intros <-. rewrite firstn_app, firstn_all, Nat.sub_diag. cbn [firstn]. apply app_nil_r. Qed.
+
+Lemma lookup_record_shape c d rest : no_nul d = true -> (length d <= 15)%nat ->
+  skipn 16 ((c :: null_pad d 15 false) ++ rest) = rest
+  /\ cut_nul (firstn 15 (skipn 1 ((c :: null_pad d 15 false) ++ rest))) = d
+  /\ (16 <= length ((c :: null_pad d 15 false) ++ rest))%nat.
+Proof.
+  intros Hn Hl.
+  assert (length (null_pad d 15 false) = 15%nat) as HL by (apply null_pad_length; now right).
+  repeat split.
+  - apply skipn_exact. cbn [length]. now rewrite HL.
+  - change (skipn 1 ((c :: null_pad d 15 false) ++ rest)) with (null_pad d 15 false ++ rest).
+    rewrite (firstn_exact _ _ _ HL).
+    rewrite null_pad_exact by assumption. now destruct (cut_nul_app_zeros d (15 - length d) [] Hn) as [_ ->].
+  - cbn [app length]. rewrite app_length, HL. lia.
+Qed.
+
+Lemma lookup_parse_bytes t : forall fuel acc seen,
+  lookup_wf seen t = true -> (forall k, In k (map fst acc) -> existsb (Z.eqb k) seen = true) ->
+  (length (lookup_bytes t) < fuel)%nat ->
+  lookup_parse_from fuel (lookup_bytes t) acc = Some (acc ++ t).
+Proof.
+  induction t as [|[c d] t IH]; intros fuel acc seen Hwf Hacc Hf.
+  - cbn. destruct fuel; now rewrite app_nil_r.
+  - cbn [lookup_wf] in Hwf. repeat (apply andb_true_iff in Hwf as [Hwf ?]).
+    apply negb_true_iff in Hwf. apply Nat.leb_le in H1.
+    change (lookup_bytes ((c, d) :: t)) with ((c :: null_pad d 15 false) ++ lookup_bytes t) in *.
+    destruct (lookup_record_shape c d (lookup_bytes t) H0 H1) as (Hs & Hc & Hlen).
+    destruct fuel as [|fuel]; [lia|].
+    remember ((c :: null_pad d 15 false) ++ lookup_bytes t) as bs eqn:Ebs.
+    destruct bs as [|b bs']; [discriminate|]. assert (b = c) as -> by (cbn in Ebs; now injection Ebs).
+    cbn [lookup_parse_from]. destruct (Nat.ltb (length (c :: bs')) 16) eqn:El; [apply Nat.ltb_lt in El; lia|].
+    rewrite Hs, Hc. rewrite dict_set_fresh.
+    + rewrite (IH fuel (acc ++ [(c, d)]) (c :: seen)); [now rewrite <- app_assoc|assumption| |].
+      * intros k Hk. rewrite map_app in Hk. apply in_app_or in Hk as [Hk|Hk]; cbn [existsb].
+        -- rewrite (Hacc k Hk). apply orb_true_r.
+        -- cbn in Hk. destruct Hk as [<-|[]]. now rewrite Z.eqb_refl.
+      * assert (length (c :: bs') = 16 + length (lookup_bytes t))%nat.
+        { rewrite Ebs. cbn [app length]. rewrite app_length. f_equal.
+          assert (length (null_pad d 15 false) = 15%nat) as -> by (apply null_pad_length; now right). reflexivity. }
+        lia.
+    + destruct (existsb (Z.eqb c) (map fst acc)) eqn:E; [|reflexivity].
+      apply existsb_exists in E as (k & Hk & Hkc). apply Z.eqb_eq in Hkc. subst k.
+      now rewrite (Hacc c Hk) in Hwf.
+Qed.
+
+Theorem lookup_table_round_trip t : lookup_wf [] t = true ->
+  lookup_parse (lookup_bytes t) = Some t /\ len (lookup_bytes t) = 16 * len t.
+Proof.
+  intros Hwf. split.
+  - unfold lookup_parse. now rewrite (lookup_parse_bytes t _ [] [] Hwf) by (cbn; intuition lia).
+  - clear Hwf. induction t as [|[c d] t IH]; [reflexivity|].
+    change (lookup_bytes ((c, d) :: t)) with ((c :: null_pad d 15 false) ++ lookup_bytes t).
+    unfold len in *. cbn [app length]. rewrite app_length.
+    assert (length (null_pad d 15 false) = 15%nat) as -> by (apply null_pad_length; now right). lia.
+Qed.
